@@ -88,6 +88,7 @@ type opRec struct {
 	acks      int  // events the executor has finished processing
 	endCalls  int  // execCalls at the time Execute last returned (0 = it has not)
 	put       bool
+	putAt     int      // length of the trace when the engine handed the executor back (its goroutine is over)
 	rejected  bool     // the driver concluded that the engine never started it
 	emitted   []string // data items handed to the writer, in order
 	selfEnd   string   // how the last scripted end of an Execute call looked: "f" | "x"
@@ -327,7 +328,7 @@ func (p pool) Get(payload []byte) (subscription.Executor, error) {
 
 func (p pool) Put(e subscription.Executor) error {
 	if ex, ok := e.(*executor); ok {
-		p.r.update(func() { ex.op.put = true })
+		p.r.update(func() { ex.op.put = true; ex.op.putAt = len(p.r.log) })
 	}
 	return nil
 }
@@ -434,6 +435,7 @@ type opTruth struct {
 	Entered   bool
 	ExecCalls int
 	Put       bool
+	PutAt     int // length of the trace when the operation's goroutine ended
 	Emitted   []string
 	SelfEnd   string
 	SelfEnds  int
@@ -751,7 +753,7 @@ func (r *rig) snapshotOpsLocked() map[int]opTruth {
 	out := make(map[int]opTruth, len(r.ops))
 	for t, op := range r.ops {
 		out[t] = opTruth{Token: op.token, ID: op.id, Kind: op.kind, Gets: op.gets, Entered: op.entered, ExecCalls: op.execCalls,
-			Put: op.put, Emitted: append([]string(nil), op.emitted...), SelfEnd: op.selfEnd, SelfEnds: op.selfEnds, SelfErrs: op.selfErrs, Cancelled: op.cancelled, CancelAt: op.cancelAt}
+			Put: op.put, PutAt: op.putAt, Emitted: append([]string(nil), op.emitted...), SelfEnd: op.selfEnd, SelfEnds: op.selfEnds, SelfErrs: op.selfErrs, Cancelled: op.cancelled, CancelAt: op.cancelAt}
 	}
 	return out
 }
